@@ -537,13 +537,11 @@ def c10(pid, tier, seed, selftest=False):
             scenarios.append(st.conv_enc(raw, api="chunks", aad=["key", "pass"][i % 2], kseed=1 + i % 3, pseed=1 + i % 5,
                                          sid="ef%d.%d" % (cs, i)))
     em = st.emit(pid, "enc-faults-api", "MC_EncLoop",
-                 st.enc_constants(cs=2, maxlen=4, hdr="HdrSmall", faults=1, splits=1 if thorough else 0,
+                 st.enc_constants(cs=2, maxlen=4 if thorough else 3, hdr="HdrSmall", faults=1, splits=1,
                                   shorts=1 if thorough else 0))
     rep.add_model("enc-faults-api", em, "behaviour enumeration (header phase) for the public API")
     for i, raw in enumerate(em.replays):
-        if not thorough and i % 2:
-            continue
-        api = ["key", "pass"][i % 5 == 0]
+        api = ["key", "pass"][i % 3 == 0]
         scenarios.append(st.conv_enc(raw, api=api, aad="key" if api == "key" else "pass", kseed=1 + i % 3, pseed=1 + i % 5,
                                      sid="ea.%d" % i))
     scenarios += dec_from_model(rep, pid, "dec-faults", st.dec_constants(cs=2, src="Src322" if thorough else "Src21",
